@@ -44,7 +44,7 @@ func (c17) Plan(tier string) []mon.RunSpec {
 	}
 	return []mon.RunSpec{{Flavour: "plain", Shards: 2}, {Flavour: "race", Levels: raceLv, Every: 3, Shards: 4}}
 }
-func (c17) CaseCPUBudget(string) float64 { return 900 }
+func (c17) CaseCPUBudget(string) float64 { return 1800 }
 func (c17) Assumptions() []string {
 	return []string{"memory accesses made by assembly are not instrumented by the race detector; a race confined to assembly is visible only through the digest comparison"}
 }
@@ -158,6 +158,64 @@ func (w c17Work) run(api *impl.API, clk *c17Clock) (digest string, start, end in
 			rd.Reset(&hookReader{r: bytes.NewReader(vs.S), hook: hook}, nil)
 			out, err, _ = readAllSizes(rd, gen.ReadSizes(gen.New(w.seed+3), "random"), len(vs.Plain)+1<<20)
 			note("dec2", out, err)
+		case "compress-deep-tree":
+			// steeply skewed symbol frequencies: the unrestricted Huffman tree is
+			// deeper than the limit, so the length-limiting path of the code
+			// generator runs for (almost) every block; many small blocks via Flush
+			s := Setting{Wrapper: "flate", Level: []int{-2, 1, 2, -1}[r.Intn(4)], Win4K: r.Bool()}
+			sink := &Sink{Hook: hook}
+			wr, err := NewWriter(api, s, sink)
+			if err != nil {
+				note("ctor", nil, err)
+				return
+			}
+			for k := 0; k < 12; k++ {
+				d := gen.Make(r, []string{"fibexact", "fibexact", "fib"}[r.Intn(3)], r.Range(3000, 60000))
+				_, err := wr.Write(d.B)
+				if err == nil {
+					err = wr.Flush()
+				}
+				note("blk", nil, err)
+			}
+			note("emit", sink.Buf.Bytes(), wr.Close())
+		case "decode-close-reuse":
+			// read, Close, Reset onto the next stream, read on: the pattern gzip
+			// and zlib Readers apply to their inner flate Reader
+			var rd impl.FlateReader
+			for k := 0; k < 5; k++ {
+				vs := streamNoFastgo(r, 60000)
+				src := &hookReader{r: bytes.NewReader(vs.S), hook: hook}
+				if rd == nil || k == 3 {
+					rd = api.NewFlateReader(src)
+				} else {
+					rd.Reset(src, nil)
+				}
+				out, err, _ := readAllSizes(rd, gen.ReadSizes(gen.New(w.seed+uint64(k)), "random"), len(vs.Plain)+1<<20)
+				note("dec", out, err)
+				fmt.Fprintf(h, "equal=%v", bytes.Equal(out, vs.Plain))
+				rd.Close()
+			}
+		case "gzip-close-reuse":
+			var z impl.GzipReader
+			for k := 0; k < 4; k++ {
+				d := gen.RandomData(r, 60000)
+				cont := encodeStdGzip(d.B, r.Pick(1, 6))
+				src := &hookReader{r: bytes.NewReader(cont), hook: hook}
+				var err error
+				if z == nil {
+					z, err = api.NewGzipReader(src)
+				} else {
+					err = z.Reset(src)
+				}
+				if err != nil {
+					note("gzctor", nil, err)
+					return
+				}
+				out, e := io.ReadAll(z)
+				note("gz", out, e)
+				fmt.Fprintf(h, "equal=%v", bytes.Equal(out, d.B))
+				z.Close()
+			}
 		case "decode-malformed":
 			for k := 0; k < 6; k++ {
 				f := synth.Faults[r.Intn(len(synth.Faults))]
@@ -223,7 +281,8 @@ type hookWriter struct {
 
 func (h *hookWriter) Write(p []byte) (int, error) { h.hook(); return h.w.Write(p) }
 
-var c17Kinds = []string{"compress", "compress-reset", "decode-fixed", "decode-dynamic", "decode-any", "decode-malformed", "gzip-roundtrip", "zlib-roundtrip"}
+var c17Kinds = []string{"compress", "compress-reset", "decode-fixed", "decode-dynamic", "decode-any", "decode-malformed", "gzip-roundtrip", "zlib-roundtrip",
+	"compress-deep-tree", "compress-deep-tree", "decode-close-reuse", "decode-close-reuse", "gzip-close-reuse"}
 
 func (c17) Run(c *mon.Ctx, i int) {
 	r := c.R
